@@ -4,7 +4,7 @@
 (* larger than needed, GGSW precision below / above the GLWE's, ranks, result with fewer / more   *)
 (* limbs, in-place forms) x GGSW plaintexts {0, 1, -1, X^k, -X^k, small dense}; the three CMux     *)
 (* forms for both selector bits; GGSW x GGSW products with fewer / equal / more result rows.       *)
-EXTENDS Integers, Sequences, FiniteSets, TLC, Json, IOUtils, SequencesExt
+EXTENDS Integers, Sequences, FiniteSets, TLC, Json
 
 CONSTANTS Bs, MaxSIn, MaxSKey, MaxDsize, Ranks, PCs, MaxKeyBits, MinKeyBits, NX, Quick
 
@@ -24,34 +24,32 @@ With(s, f) == [x \in DOMAIN s \cup DOMAIN f |-> IF x \in DOMAIN f THEN f[x] ELSE
 KeyShapes == { <<skey, dnum, dsize>> \in (2..MaxSKey) \X (1..MaxSKey) \X (1..MaxDsize) : skey > dsize /\ dnum * dsize <= skey }
 Keys(bkey) == { k \in KeyShapes : k[1] * bkey <= MaxKeyBits /\ k[1] * bkey >= MinKeyBits }
 
-XpOut == UNION { UNION { { D("xp", m2, bin, bkey, bout, sin, ks[1], sout, r, ks[2], ks[3], pc) :
-                             m2 \in M2Out, bin \in Bs, bout \in Bs, sin \in 1..MaxSIn, sout \in ({1, ks[1] - 1, ks[1], ks[1] + 1} \cap (1..(MaxSKey + 1))),
-                             r \in Ranks, pc \in PCs }
-                         : ks \in Keys(bkey) } : bkey \in Bs }
-\* every GGSW plaintext on a lighter shape set
-XpM2 == UNION { { D("xp", m2, bin, bkey, bin, 4, ks[1], 4, r, ks[2], ks[3], 1) : m2 \in M2s, bin \in Bs, r \in Ranks, ks \in {k \in Keys(bkey) : k[1] * bkey >= 18 /\ k[3] <= 2} } : bkey \in Bs }
-XpIn == UNION { { D("xp_assign", m2, bin, bkey, bin, sin, ks[1], sin, r, ks[2], ks[3], pc) :
-                    m2 \in M2Out, bin \in Bs, sin \in 1..MaxSIn, r \in Ranks, ks \in Keys(bkey), pc \in PCs } : bkey \in Bs }
-\* CMux: the library requires one radix for branches, result and selector
+\* ---- one TLC state per descriptor (printed by the invariant Emit): the families are quantified, never built as sets
 Bit(b) == Unit(0, b)
-Cmux == UNION { { D(op, Bit(bit), b, b, b, sin, ks[1], sin + ds, r, ks[2], ks[3], pc) :
-                    op \in {"cmux"}, bit \in {0, 1}, sin \in 1..MaxSIn, ds \in {-1, 0, 1}, r \in Ranks, ks \in Keys(b), pc \in PCs } \ {x \in {} : TRUE} : b \in Bs }
-CmuxIn == UNION { { D(op, Bit(bit), b, b, b, sin, ks[1], sin, r, ks[2], ks[3], pc) :
-                    op \in {"cmux_assign", "cmux_assign_neg"}, bit \in {0, 1}, sin \in 1..MaxSIn, r \in Ranks, ks \in Keys(b), pc \in PCs } : b \in Bs }
-\* GGSW x GGSW: a has dnum_a rows of digit size 1 in the input radix
-GgswXp == UNION { { With(D("ggsw_xp", m2, bin, bkey, bin, 5, ks[1], sout, r, ks[2], ks[3], 1), [m1 |-> m1, dnum_a |-> da, dnum_r |-> dr]) :
-                      m2 \in {Unit(2, 1), Unit(0, -1), Zero}, m1 \in {Unit(1, 1), Dense2}, bin \in Bs, sout \in {5, 6}, r \in Ranks, da \in {2, 4}, dr \in {2, 4, 5},
-                      ks \in {k \in Keys(bkey) : k[1] * bkey >= 18 /\ k[3] <= 2 /\ k[2] * k[3] >= k[1] - 1} } : bkey \in Bs }
-GgswXpIn == UNION { { With(D("ggsw_xp_assign", m2, bin, bkey, bin, 5, ks[1], 5, r, ks[2], ks[3], 1), [m1 |-> m1, dnum_a |-> da]) :
-                      m2 \in {Unit(2, 1), Unit(0, -1)}, m1 \in {Unit(1, 1), Dense2}, bin \in Bs, r \in Ranks, da \in {2, 4},
-                      ks \in {k \in Keys(bkey) : k[1] * bkey >= 18 /\ k[3] <= 2 /\ k[2] * k[3] >= k[1] - 1} } : bkey \in Bs }
-
-Descs0 == XpOut \cup XpM2 \cup XpIn \cup Cmux \cup CmuxIn \cup GgswXp \cup GgswXpIn
-
-Descs == { d \in Descs0 : d.sout >= 1 }
-ASSUME ndJsonSerialize(IOEnv.OUT, SetToSeq(Descs))
-ASSUME PrintT(<<"GENERATED", Cardinality(Descs)>>)
+LightKeys(bkey) == { k \in Keys(bkey) : k[1] * bkey >= 18 /\ k[3] <= 2 }
+GgswKeys(bkey) == { k \in LightKeys(bkey) : k[2] * k[3] >= k[1] - 1 }
 VARIABLE c
-Init == c = 0
-Next == UNCHANGED c
+Init == c = [op |-> "none"]
+Next ==
+  /\ c.op = "none"
+  /\ \/ \E m2 \in M2Out, bin \in Bs, bkey \in Bs, bout \in Bs, sin \in 1..MaxSIn, r \in Ranks, pc \in PCs : \E ks \in Keys(bkey) :
+          \E sout \in ({1, ks[1] - 1, ks[1], ks[1] + 1} \cap (1..(MaxSKey + 1))) :
+            c' = D("xp", m2, bin, bkey, bout, sin, ks[1], sout, r, ks[2], ks[3], pc)
+     \/ \* every GGSW plaintext on a lighter shape set
+        \E m2 \in M2s, bin \in Bs, bkey \in Bs, r \in Ranks : \E ks \in LightKeys(bkey) :
+            c' = D("xp", m2, bin, bkey, bin, 4, ks[1], 4, r, ks[2], ks[3], 1)
+     \/ \E m2 \in M2Out, bin \in Bs, bkey \in Bs, sin \in 1..MaxSIn, r \in Ranks, pc \in PCs : \E ks \in Keys(bkey) :
+            c' = D("xp_assign", m2, bin, bkey, bin, sin, ks[1], sin, r, ks[2], ks[3], pc)
+     \/ \* CMux: the library requires one radix for branches, result and selector
+        \E bit \in {0, 1}, b \in Bs, sin \in 1..MaxSIn, ds \in {-1, 0, 1}, r \in Ranks, pc \in PCs : \E ks \in Keys(b) :
+            /\ sin + ds >= 1
+            /\ c' = D("cmux", Bit(bit), b, b, b, sin, ks[1], sin + ds, r, ks[2], ks[3], pc)
+     \/ \E op \in {"cmux_assign", "cmux_assign_neg"}, bit \in {0, 1}, b \in Bs, sin \in 1..MaxSIn, r \in Ranks, pc \in PCs : \E ks \in Keys(b) :
+            c' = D(op, Bit(bit), b, b, b, sin, ks[1], sin, r, ks[2], ks[3], pc)
+     \/ \* GGSW x GGSW: a has dnum_a rows of digit size 1 in the input radix
+        \E m2 \in {Unit(2, 1), Unit(0, -1), Zero}, m1 \in {Unit(1, 1), Dense2}, bin \in Bs, bkey \in Bs, sout \in {5, 6}, r \in Ranks, da \in {2, 4}, dr \in {2, 4, 5} : \E ks \in GgswKeys(bkey) :
+            c' = With(D("ggsw_xp", m2, bin, bkey, bin, 5, ks[1], sout, r, ks[2], ks[3], 1), [m1 |-> m1, dnum_a |-> da, dnum_r |-> dr])
+     \/ \E m2 \in {Unit(2, 1), Unit(0, -1)}, m1 \in {Unit(1, 1), Dense2}, bin \in Bs, bkey \in Bs, r \in Ranks, da \in {2, 4} : \E ks \in GgswKeys(bkey) :
+            c' = With(D("ggsw_xp_assign", m2, bin, bkey, bin, 5, ks[1], 5, r, ks[2], ks[3], 1), [m1 |-> m1, dnum_a |-> da])
+Emit == c.op # "none" => PrintT(<<"DESC", ToJson(c)>>)
 =============================================================================
